@@ -396,19 +396,36 @@ func Shrink(input string) []string {
 		n.List = append(append([]*sx.Node{}, l.List[:i]...), l.List[i+1:]...)
 		return n
 	}
+	// with: the input with its hooks / requests replaced; a fourth field (user variables) is kept
+	with := func(hooks, reqs *sx.Node) string {
+		n := sx.L(hooks, reqs, in.At(2))
+		if in.Len() >= 4 {
+			n.Add(in.At(3))
+		}
+		return n.String()
+	}
 	for i := len(in.At(1).List) - 1; i >= 0; i-- {
-		out = append(out, sx.L(in.At(0), drop(in.At(1), i), in.At(2)).String())
+		out = append(out, with(in.At(0), drop(in.At(1), i)))
 	}
 	for i, q := range in.At(1).List {
 		if q.At(0).Str() == "P" {
 			// the pair issued one after the other instead
 			n := sx.L()
 			n.List = append(append(append([]*sx.Node{}, in.At(1).List[:i]...), q.At(1), q.At(2)), in.At(1).List[i+1:]...)
-			out = append(out, sx.L(in.At(0), n, in.At(2)).String())
+			out = append(out, with(in.At(0), n))
 		}
 	}
 	for i := range in.At(0).List {
-		out = append(out, sx.L(drop(in.At(0), i), in.At(1), in.At(2)).String())
+		out = append(out, with(drop(in.At(0), i), in.At(1)))
+	}
+	if in.Len() >= 4 {
+		// without the user variables; without one of them
+		out = append(out, sx.L(in.At(0), in.At(1), in.At(2)).String())
+		if in.At(3).Len() > 1 {
+			for i := range in.At(3).List {
+				out = append(out, sx.L(in.At(0), in.At(1), in.At(2), drop(in.At(3), i)).String())
+			}
+		}
 	}
 	return out
 }
@@ -563,4 +580,258 @@ func GenBodyFailureCase(r *rng.R) fw.Case {
 		tags = append(tags, "critical-failures")
 	}
 	return fw.Case{Input: sx.L(hooks, reqs, sx.I(r.Range(1, 2))).String(), Tags: tags}
+}
+
+// ---- slow task phases, user-supplied workflow variables -------------------------------------------
+
+// uvarNames: plausible names of user-supplied workflow variables that bound how long something may take —
+// names the core reads today (auto_stop_timeout, odc_padding_timeout, deploy_timeout, timeout) and names
+// a variable of that kind would plausibly get. The model takes no user variable into account: a tree whose
+// behaviour depends on one of them disagrees with it wherever the generated value matters.
+var uvarNames = func() []string {
+	var out []string
+	for _, p := range []string{"", "transition_", "task_", "tasks_", "command_", "state_change_", "configure_", "start_activity_",
+		"stop_activity_", "reset_", "deploy_", "environment_", "fsm_", "auto_stop_", "odc_padding_", "hook_", "call_"} {
+		for _, s := range []string{"timeout", "deadline", "max_wait", "ttl"} {
+			out = append(out, p+s)
+		}
+	}
+	return out
+}()
+
+// small durations, in the spellings a Go program may parse (time.ParseDuration, a bare number)
+var uvarValues = []string{"1ms", "2ms", "5ms", "8ms", "10ms", "0.01s", "0.005s", "3", "10"}
+
+// UVarNames returns the vocabulary (for exhaustive tables that walk through it).
+func UVarNames() []string { return uvarNames }
+
+// GenUserVars: the names given plus n more picked at random, each with a small duration; sorted by name,
+// no name twice.
+func GenUserVars(r *rng.R, n int, names ...string) *sx.Node {
+	seen := map[string]bool{}
+	var ks []string
+	for _, k := range names {
+		if !seen[k] {
+			seen[k] = true
+			ks = append(ks, k)
+		}
+	}
+	for i := 0; i < n; i++ {
+		k := rng.Pick(r, uvarNames)
+		if !seen[k] {
+			seen[k] = true
+			ks = append(ks, k)
+		}
+	}
+	sortStrings(ks)
+	l := sx.L()
+	for _, k := range ks {
+		l.Add(sx.L(sx.A(k), sx.A(rng.Pick(r, uvarValues))))
+	}
+	return l
+}
+
+// HoldFor: how long (ms) a task phase must last to be slow relative to EVERYTHING the environment was
+// configured with: twice the longest duration any user variable can be read as (bare numbers as
+// milliseconds), plus a margin.
+func HoldFor(uvars *sx.Node) int {
+	longest := 0.0
+	for _, kv := range uvars.List {
+		v := kv.At(1).Str()
+		ms := 0.0
+		switch {
+		case len(v) > 2 && v[len(v)-2:] == "ms":
+			fmt.Sscanf(v[:len(v)-2], "%g", &ms)
+		case len(v) > 1 && v[len(v)-1] == 's':
+			fmt.Sscanf(v[:len(v)-1], "%g", &ms)
+			ms *= 1000
+		default:
+			fmt.Sscanf(v, "%g", &ms)
+		}
+		if ms > longest {
+			longest = ms
+		}
+	}
+	return int(2*longest) + 30
+}
+
+// WithSlowTaskPhases rewrites the overlapping pairs (P q1 q2) of a generated case into the class "the task
+// phase of the first request is slow relative to anything the environment may be configured with, and a
+// further request arrives meanwhile": the environment gets 1..6 user variables with timeout-like names and
+// small values, every pair gets a hold longer than all of them ((P q1 q2 holdMs): q1 stays at its gate — its
+// command to the tasks unanswered — for that long after q2 was first sighted, then both are sighted again),
+// and, as long as no teardown has been attempted before (a teardown attempt closes the environment's
+// stateChangedCh: see Run), a first request on CONFIGURE / START_ACTIVITY / STOP_ACTIVITY / RESET runs its
+// REAL body (TR: the held answer is the fake task manager's), and so does the second one half of the time.
+// Cases without a pair only get the user variables. Tags: user-vars, slow-task-phase, real-bodies.
+func WithSlowTaskPhases(c fw.Case, r *rng.R) fw.Case {
+	in, err := sx.Parse(c.Input)
+	if err != nil {
+		return c
+	}
+	uvars := GenUserVars(r, r.Range(1, 6))
+	hold := HoldFor(uvars)
+	reqs := sx.L()
+	live, nReal, nHold := true, 0, 0
+	real := func(q *sx.Node) *sx.Node {
+		k := q.At(0).Str()
+		if live && (k == "T" || k == "C") && realEligible(q.At(1).Str()) {
+			nReal++
+			return sx.L(sx.A(k+"R"), q.At(1), q.At(2), q.At(3))
+		}
+		return q
+	}
+	for _, q := range in.At(1).List {
+		switch q.At(0).Str() {
+		case "D":
+			live = false
+		case "P":
+			q1, q2 := q.At(1), q.At(2)
+			if q1.At(0).Str() == "D" {
+				live = false
+			}
+			q1 = real(q1)
+			if q2.At(0).Str() == "D" {
+				live = false
+			} else if r.P(1, 2) {
+				q2 = real(q2)
+			}
+			q = sx.L(sx.A("P"), q1, q2, sx.I(hold))
+			nHold++
+		}
+		reqs.Add(q)
+	}
+	nTasks := in.At(2).Int()
+	tags := append(append([]string{}, c.Tags...), "user-vars")
+	if nHold > 0 {
+		tags = append(tags, "slow-task-phase")
+	}
+	if nReal > 0 {
+		nTasks = max(nTasks, 1)
+		tags = append(tags, "real-bodies")
+	}
+	return fw.Case{Input: sx.L(in.At(0), reqs, sx.I(nTasks), uvars).String(), Tags: tags}
+}
+
+// ---- calls awaited in the OTHER pass of their trigger moment -------------------------------------
+
+// GenCrossPassCase: the class "a call whose trigger weight and await weight lie on DIFFERENT sides of 0 at the
+// same moment, next to other hooks triggered at its await weight". before_<event>, leave_<state>,
+// enter_<state> and after_<event> are each handled in two passes — the negative weights, then (after the run
+// number / the run timestamps of that moment have been written) the others. A call triggered at
+// before_START_ACTIVITY-10 with `await: before_START_ACTIVITY+10` is started by the first pass and collected
+// by the second; the hooks triggered at +10 belong to the second pass ONLY: each runs once per occurrence of
+// the moment and sees what that pass sees (before_START_ACTIVITY: the new run number and start time;
+// before_STOP_ACTIVITY / before_GO_ERROR: the end time; after_START_ACTIVITY / after_STOP_ACTIVITY: the
+// completion times). The walk is the run cycle, once or twice (a second run must not see the first one's
+// values), closed by STOP_ACTIVITY or GO_ERROR; 1..2 crossing calls (forward: negative trigger, non-negative
+// await — three quarters; backward: the reverse, collected at the next occurrence), 1..2 call / task hooks at
+// the await weight, 0..2 more at other weights of both signs of the same moment.
+func GenCrossPassCase(r *rng.R) fw.Case {
+	type tr struct{ ev, src, dst string }
+	run := []tr{{"DEPLOY", "STANDBY", "DEPLOYED"}, {"CONFIGURE", "DEPLOYED", "CONFIGURED"},
+		{"START_ACTIVITY", "CONFIGURED", "RUNNING"}}
+	end := tr{"STOP_ACTIVITY", "RUNNING", "CONFIGURED"}
+	twice := r.P(1, 2)
+	if !twice && r.P(1, 3) {
+		end = tr{"GO_ERROR", "RUNNING", "ERROR"}
+	}
+	walk := append(append([]tr{}, run...), end)
+	if twice {
+		walk = append(walk, run[2])
+		if r.P(1, 2) {
+			walk = append(walk, tr{"STOP_ACTIVITY", "RUNNING", "CONFIGURED"})
+		} else if r.P(1, 2) {
+			walk = append(walk, tr{"GO_ERROR", "RUNNING", "ERROR"})
+		}
+	}
+	// the moments of the run bracket (where the passes differ in what they see), now and then any moment of the walk
+	bracket := []string{"before_START_ACTIVITY", "before_START_ACTIVITY", "after_START_ACTIVITY", "before_" + end.ev, "before_" + end.ev, "after_" + end.ev}
+	var anyM []string
+	for _, t := range walk {
+		anyM = append(anyM, "before_"+t.ev, "leave_"+t.src, "enter_"+t.dst, "after_"+t.ev)
+	}
+	m := rng.Pick(r, bracket)
+	if r.P(1, 4) {
+		m = rng.Pick(r, anyM)
+	}
+	negs := []int{-50, -10, -1}
+	poss := []int{0, 5, 10, 100}
+	hooks := sx.L()
+	id := 0
+	add := func(kind string, crit bool, trig string, tw int, at string, aw int, outs *sx.Node) {
+		hooks.Add(sx.L(sx.I(id), sx.A(kind), sx.B(crit), sx.A(trig), sx.I(tw), sx.A(at), sx.I(aw), outs))
+		id++
+	}
+	failing := func(p int) *sx.Node {
+		l := sx.L()
+		if r.P(p, 1000) {
+			for j := 0; j < 6; j++ {
+				l.Add(sx.B(true))
+			}
+		}
+		return l
+	}
+	tags := []string{"cross-pass-await", "cross-pass-at-" + m}
+	nCritFail := 0
+	var awaitWs []int
+	for i, n := 0, r.Range(1, 2); i < n; i++ {
+		a, b := rng.Pick(r, negs), rng.Pick(r, poss)
+		dir := "cross-pass-forward"
+		if r.P(1, 4) {
+			a, b = b, a
+			dir = "cross-pass-backward"
+		}
+		crit := r.P(1, 3)
+		outs := failing(60)
+		if outs.Len() > 0 && crit {
+			nCritFail++
+		}
+		add("call", crit, m, a, m, b, outs)
+		awaitWs = append(awaitWs, b)
+		tags = append(tags, dir)
+	}
+	// the hooks triggered AT the await weight of a crossing call
+	for i, n := 0, r.Range(1, 2); i < n; i++ {
+		w := rng.Pick(r, awaitWs)
+		kind := "call"
+		if r.P(1, 4) {
+			kind = "task"
+		}
+		crit := r.P(1, 3)
+		outs := failing(60)
+		if outs.Len() > 0 && crit {
+			nCritFail++
+		}
+		add(kind, crit, m, w, m, w, outs)
+	}
+	for i, n := 0, r.N(3); i < n; i++ {
+		w := rng.Pick(r, append(append([]int{}, negs...), poss...))
+		kind := "call"
+		if r.P(1, 5) {
+			kind = "task"
+		}
+		add(kind, false, m, w, m, w, sx.L())
+	}
+	rng.Shuffle(r, hooks.List)
+	reqs := sx.L()
+	for _, t := range walk {
+		k := "T"
+		if r.P(1, 6) {
+			k = "C"
+		}
+		reqs.Add(sx.L(sx.A(k), sx.A(t.ev), sx.B(true), sx.B(false)))
+	}
+	if r.P(1, 5) {
+		reqs.Add(sx.L(sx.A("D"), sx.B(true), sx.B(true), sx.B(true)))
+		tags = append(tags, "teardown")
+	}
+	if twice {
+		tags = append(tags, "cross-pass-two-runs")
+	}
+	if nCritFail > 0 {
+		tags = append(tags, "critical-failures")
+	}
+	tags = append(tags, "floating-await")
+	return fw.Case{Input: sx.L(hooks, reqs, sx.I(r.Range(0, 2))).String(), Tags: tags}
 }
